@@ -113,6 +113,9 @@ void harness_byte(void)
 #endif
 
 #ifdef COPY_HARNESS
+#ifndef COPY_LEN_MAX
+#define COPY_LEN_MAX 16
+#endif
 void harness_copy(void)
 {
 	INPUT_ARRAY(u8, data, BS_N);
@@ -121,9 +124,7 @@ void harness_copy(void)
 	u8 out[OUTPUT_BUFFER_SIZE];
 	unsigned i, cur, c, len, off, d;
 	size_t n;
-#ifdef ALIGN0
-	skip = 0;     /* the code sees the stream only through read_bits(n): alignment cannot matter to it (pm2.cmd.byte/fields run at any alignment) */
-#endif
+	ASSUME(sym <= 8 + COPY_LEN_MAX - 2);           /* copy length c + 2 <= COPY_LEN_MAX (16 = all codes without length bits) */
 	ASSUME(skip < 8 && sym >= 8 && sym <= 22 && t < 8 && pos0 < RING_BUFFER_SIZE && probe < RING_BUFFER_SIZE && idx < 16 && tstate >= 1 && tstate <= 4 && remaining >= 1 && remaining <= 4096);
 	for (i = 0; i < BS_N; ++i) bs_data[i] = data[i];
 	bs_bits = 8 * BS_N; bs_pos = skip;
@@ -155,11 +156,11 @@ void harness_copy(void)
 		CHECK(dec.ringbuf[probe] == (e < len ? out[e] : d0.ringbuf[probe]), "C04: window after a copy = old window with the output appended");
 	}
 	check_countdown(remaining, len);
-	if (len == 16 && d == 1) WITNESS("run of 16 (distance 1)");
-	if (len == 16 && d == 8192 && pos0 == 8190) WITNESS("maximal distance across the window seam");
+	if (len == COPY_LEN_MAX && d == 1) WITNESS("longest run (distance 1)");
+	if (len == COPY_LEN_MAX && d == 8192 && pos0 == 8190) WITNESS("maximal distance across the window seam");
 	if (c == 0 && off == 63) WITNESS("length-2 copy with its own 6-bit distance");
-	if (len == 9 && t == 0) WITNESS("offset class 0");
-	if (remaining == 5 && len == 12) WITNESS("tables due in the middle of the copy");
+	if (len == 7 && t == 0) WITNESS("offset class 0");
+	if (remaining == 5 && len == 8) WITNESS("tables due in the middle of the copy");
 	WITNESS("end");
 }
 #endif
